@@ -234,6 +234,9 @@ Definition run_words (ws : list string) : string :=
   | ["rdpnegenc"; ty; flags; protos] => "OK " ++ hex_of_bytes (enc_rdp_neg (z_of_string ty) (z_of_string flags) (z_of_string protos))
   | ["mysqlpktenc"; seq; h] => show_opt (enc_mysql_packet (z_of_string seq) (hex_or_empty h))
   | ["mysqlssl41"; caps; mx; cs] => "OK " ++ hex_of_bytes (enc_mysql_ssl_request41 (z_of_string caps) (z_of_string mx) (z_of_string cs))
+  | ["mysqlhs"; ver; cid; a1; caps; cs; st; a2; pl] =>
+      "OK " ++ hex_of_bytes (enc_mysql_handshake_v10 (hex_or_empty ver) (z_of_string cid) (hex_or_empty a1) (z_of_string caps) (z_of_string cs)
+                                                     (z_of_string st) (hex_or_empty a2) (if String.eqb pl "_" then None else Some (hex_or_empty pl)))
   | ["mysqlssl320"; caps; mx] => "OK " ++ hex_of_bytes (enc_mysql_ssl_request320 (z_of_string caps) (z_of_string mx))
   | ["ovpnctl"; op; sess; acks; remote; pid; h] =>
       "OK " ++ hex_of_bytes (enc_openvpn_control (z_of_string op) (z_of_string sess) (zlist_of_string acks) (z_of_string remote) (z_of_string pid) (hex_or_empty h))
